@@ -18,6 +18,7 @@ UNITS = {
     "drv": ("units/drv.rs", None),
     "drvo": ("units/drvo.rs", None),
     "final": ("units/final.rs", None),
+    "wins": ("units/wins.rs", None),
     "rank": ("units/rank.rs", None),
     "agg": ("units/agg.rs", None),
     "aggp": ("units/aggp.rs", None),
@@ -30,6 +31,7 @@ UNITS = {
     "cut.oi64": ("units/cut.rs", "oi64"),
     "gen": ("units/gen.rs", None),
     "parse": ("units/parse.rs", None),
+    "fmt": ("units/fmt.rs", None),
     "cmp": ("units/cmp.rs", None),
     "time": ("units/time.rs", None),
     "map.f64": ("units/map.rs", "f64"),
@@ -37,6 +39,7 @@ UNITS = {
     "feat.of64": ("units/feat.rs", "of64"),
     "feat.f64": ("units/feat.rs", "f64"),
     "featp": ("units/featp.rs", "f64"),
+    "fdiff": ("units/fdiff.rs", "f64"),
     "bin.of64": ("units/bin.rs", "of64"),
     "reg.of64": ("units/reg.rs", "of64"),
     "reg.f64": ("units/reg.rs", "f64"),
@@ -45,13 +48,13 @@ UNITS = {
 
 PLAN = {
     "C01": dict(
-        verus=dict(quick=["feat.of64", "featp"], thorough=["feat.of64", "feat.f64", "featp"]),
+        verus=dict(quick=["feat.of64", "featp", "fdiff"], thorough=["feat.of64", "feat.f64", "featp", "fdiff"]),
         kani=dict(quick=[], thorough=["roll_bounded"]),
         level="proof",
     ),
     "C02": dict(
         verus=dict(quick=["drv", "drvo"], thorough=["drv", "drvo"]),
-        kani=dict(quick=[], thorough=[]),
+        kani=dict(quick=["nd_drivers_bounded"], thorough=["nd_drivers_bounded", "backend_bounded"]),
         level="proof",
     ),
 }
@@ -72,7 +75,7 @@ PLAN["C15"] = dict(
 )
 
 PLAN["C20"] = dict(
-    verus=dict(quick=["final"], thorough=["final"]),
+    verus=dict(quick=["final", "wins"], thorough=["final", "wins"]),
     kani=dict(quick=[], thorough=[]),
     level="proof",
 )
@@ -85,7 +88,7 @@ PLAN["C13"] = dict(
 
 PLAN["C17"] = dict(
     verus=dict(quick=["time"], thorough=["time"]),
-    kani=dict(quick=["time_delta_group", "time_delta_scaling"], thorough=["time_delta_group", "time_delta_scaling", "time_delta_scaling_k3", "time_components"]),
+    kani=dict(quick=["time_nat", "time_delta_group", "time_delta_scaling"], thorough=["time_nat", "time_delta_group", "time_delta_scaling", "time_delta_scaling_k3", "time_components"]),
     level="proof",
 )
 PLAN["C16"] = dict(
@@ -96,7 +99,7 @@ PLAN["C16"] = dict(
 
 PLAN["C03"] = dict(
     verus=dict(quick=["cmp", "feat.of64"], thorough=["cmp", "feat.of64", "feat.f64"]),
-    kani=dict(quick=[], thorough=["roll_bounded"]),
+    kani=dict(quick=["roll_c03_bounded"], thorough=["roll_bounded"]),
     level="proof",
 )
 
@@ -107,12 +110,12 @@ PLAN["C05"] = dict(
 )
 PLAN["C06"] = dict(
     verus=dict(quick=["feat.of64", "featp", "cmp", "map.f64"], thorough=["feat.of64", "feat.f64", "featp", "cmp", "map.f64", "map.of64"]),
-    kani=dict(quick=[], thorough=[]),
+    kani=dict(quick=["roll_c03_bounded"], thorough=["roll_bounded"]),
     level="proof",
 )
 PLAN["C09"] = dict(
     verus=dict(quick=["map.f64", "rank", "gen"], thorough=["map.f64", "map.of64", "rank", "gen"]),
-    kani=dict(quick=["gen_linspace"], thorough=["gen_linspace"]),
+    kani=dict(quick=["gen_linspace"], thorough=["gen_linspace", "collect_bounded"]),
     level="proof",
 )
 PLAN["C10"] = dict(
@@ -122,20 +125,20 @@ PLAN["C10"] = dict(
 )
 
 PLAN["C18"] = dict(
-    verus=dict(quick=["parse"], thorough=["parse"]),
+    verus=dict(quick=["parse", "fmt"], thorough=["parse", "fmt"]),
     kani=dict(quick=[], thorough=[]),
     level="proof",
 )
 
 PLAN["C19"] = dict(
     verus=dict(quick=["gen"], thorough=["gen"]),
-    kani=dict(quick=["gen_range", "gen_linspace"], thorough=["gen_range", "gen_linspace", "gen_range_wide"]),
+    kani=dict(quick=["gen_range", "gen_linspace", "collect_bounded"], thorough=["gen_range", "gen_linspace", "gen_range_wide", "collect_bounded"]),
     level="proof",
 )
 
 PLAN["C12"] = dict(
     verus=dict(quick=["rank", "quant"], thorough=["rank", "quant"]),
-    kani=dict(quick=[], thorough=[]),
+    kani=dict(quick=["order_bounded", "rank_bounded"], thorough=["order_bounded", "rank_bounded"]),
     level="proof",
 )
 
@@ -153,12 +156,12 @@ PLAN["C11"] = dict(
 
 PLAN["C07"] = dict(
     verus=dict(quick=["drv", "drvo", "feat.of64", "cmp"], thorough=["drv", "drvo", "feat.of64", "feat.f64", "cmp"]),
-    kani=dict(quick=["backend_bounded"], thorough=["backend_bounded"]),
+    kani=dict(quick=["backend_bounded", "nd_accessors_bounded", "nd_drivers_bounded"], thorough=["backend_bounded", "nd_accessors_bounded", "nd_drivers_bounded"]),
     level="proof",
 )
 PLAN["C08"] = dict(
-    verus=dict(quick=["nulls", "agg", "aggb.obool", "feat.of64", "quant"], thorough=["nulls", "agg", "aggb.obool", "aggb.bool", "feat.of64", "feat.f64", "quant"]),
-    kani=dict(quick=["agg_bounded", "nulls_bounded"], thorough=["agg_bounded", "nulls_bounded"]),
+    verus=dict(quick=["nulls", "agg", "aggb.obool", "feat.of64", "quant", "cmp"], thorough=["nulls", "agg", "aggb.obool", "aggb.bool", "feat.of64", "feat.f64", "quant", "cmp"]),
+    kani=dict(quick=["agg_bounded", "nulls_bounded", "roll_c03_bounded"], thorough=["agg_bounded", "nulls_bounded", "roll_bounded"]),
     level="proof",
 )
 PLAN["C14"] = dict(
@@ -183,59 +186,59 @@ def kani_for(prop, tier):
 # ---- what each check claims, in words (MANIFEST level text / note, evidence not_covered / assumptions).  DESIGN.md 0 and 11.
 _V = "Verus discharges every obligation generated from the functions extracted from /repo's current text, for all inputs and all iterations"
 DETAILS = {
-    "C01": dict(text=_V + ": state-describes-window invariant and textbook closed form of the 16 rolling closures (ts_v{sum,mean,var,std,skew,kurt,wma,ewm}_to in two null encodings, plain ts_* family) over the driver contract.",
-                note="A-REAL (floats as reals, no rounding); the driver contract the closures are verified against is proved in units drv / drvo; fdiff not covered",
-                not_covered=["ts_fdiff / fdiff_coef"],
-                assumptions=["A-REAL", "A-ITER", "A-LEN", "A-MONO", "A-EXTRACT", "A-TOOLS"]),
+    "C01": dict(text=_V + ": state-describes-window invariant and textbook closed form of the 16 rolling closures (ts_v{sum,mean,var,std,skew,kurt,wma,ewm}_to in two null encodings, plain ts_* family) over the driver contract; fractional differencing of the plain family: fdiff_coef (entry j of the table is the weight (-1)^k C(d,k) of lag k = w-1-j), ts_fdiff_to (output i is the weighted sum over the window, the most recent element taking lag 0) and the null-aware ts_vfdiff_to (the same over the non-null elements of the window, null below min_periods) over the slice-driver contract (unit fdiff).",
+                note="A-REAL (floats as reals, no rounding); the driver contracts the closures are verified against are proved in units drv / drvo (slice driver: Vec and ndarray fast paths; the default iterator-form rolling_custom body is assumed); A-FFI: ffi::binom is a foreign function, its value is an uninterpreted function of (d, k)",
+                not_covered=["value of ffi::binom"],
+                assumptions=["A-REAL", "A-ITER", "A-FFI (binom)", "A-LEN", "A-MONO", "A-EXTRACT", "A-TOOLS"]),
     "C02": dict(text=_V + ": trace and stored-exactly-once postconditions of the caller-buffer drivers rolling_apply_to, rolling2_apply_to, rolling_apply_idx_to, rolling2_apply_idx_to, rolling_custom_to, and of the Option-dispatching / iterator-form drivers rolling_apply, rolling2_apply, rolling_apply_idx (leading Nones, FIFO removal column, delivery to the buffer or as a new container); the trait contract every client unit relies on is discharged by these functions.",
-                note="the stateful Iterator::map + trusted collector of the iterator forms is modelled eagerly (A-ITER, rollmodel.rs); the Vec fast paths of impl_vec1! and rolling2_apply_idx (iterator form) are not under contract",
-                not_covered=["Vec fast paths rolling_custom / rolling2_apply_idx of impl_vec1! (rolling_apply, rolling2_apply, rolling_apply_idx are under contract)", "rolling2_apply_idx iterator form (bounded only)", "rolling_custom / rolling_custom_iter iterator forms"],
+                note="the stateful Iterator::map + trusted collector of the iterator forms is modelled eagerly (A-ITER, rollmodel.rs); the Vec and ndarray fast paths rolling_custom, rolling_apply, rolling_apply_idx, rolling2_apply are proved against the same contracts (unit drvo; ndarray: the ArrayView1 instance of the macro, feature ndarray); Kani (BOUNDED) runs the overridden ndarray drivers on reversed / strided views of 4 elements",
+                not_covered=["fast paths rolling2_apply_idx of impl_vec1! / ndarray", "rolling2_apply_idx iterator form (bounded only)", "rolling_custom / rolling_custom_iter iterator forms (default body)", "Arc / Polars overrides"],
                 assumptions=["A-ITER", "A-EXTRACT", "A-TOOLS"]),
     "C03": dict(text=_V + ": cached-extreme invariants and window-function postconditions of ts_vmin/vmax/vargmin/vargmax_to (exact).",
-                note="ts_vzscore_to is in the feat units; ts_vminmaxnorm is checked by the bounded rolling backstop only (thorough tier); ts_vrank is not under contract",
-                not_covered=["ts_vrank", "ts_vminmaxnorm (bounded only)"], assumptions=["A-REAL (comparisons only)", "A-LEN", "A-EXTRACT", "A-TOOLS"]),
-    "C04": dict(text=_V + ": ts_vcov_to / ts_vcorr_to (pairwise-complete sums, textbook forms) and the trend family ts_vreg / vtsf / vreg_slope / vreg_intercept_to against the OLS closed forms.",
+                note="ts_vzscore_to is in the feat units; ts_vminmaxnorm and ts_vrank are checked by the bounded rolling backstop only (Kani, length 4)",
+                not_covered=["ts_vrank, ts_vminmaxnorm: bounded only"], assumptions=["A-REAL (comparisons only)", "A-LEN", "A-EXTRACT", "A-TOOLS"]),
+    "C04": dict(text=_V + ": ts_vcov_to / ts_vcorr_to (pairwise-complete sums, textbook forms), ts_vregx_all (alpha, beta, SSE of the regression on the second series; null when the fit is undefined), ts_vregx_beta_to, ts_vregx_alpha_to and the trend family ts_vreg / vtsf / vreg_slope / vreg_intercept_to against the OLS closed forms.",
                 note="A-REAL; residual statistics and the regx family are not under contract",
-                not_covered=["ts_vreg_resid_mean / resid_std / resid_skew", "ts_vregx_* family"], assumptions=["A-REAL", "A-LEN", "A-MONO", "A-EXTRACT", "A-TOOLS"]),
+                not_covered=["ts_vreg_resid_std / resid_skew", "ts_vregx_resid_mean / std / skew (ts_vregx_all, ts_vregx_beta, ts_vregx_alpha are under contract)"], assumptions=["A-REAL", "A-LEN", "A-MONO", "A-EXTRACT", "A-TOOLS"]),
     "C05": dict(text=_V + ": one-output-per-input, null-mask (effective min_periods incl. intrinsic minimum) and every integer arithmetic site of the feat and cmp functions.",
                 note="covers the functions under contract in units feat.* and cmp", not_covered=["functions not under contract (see C01, C03, C04)"],
                 assumptions=["A-REAL", "A-LEN", "A-EXTRACT", "A-TOOLS"]),
-    "C06": dict(text=_V + ": every output is a stated function of wnd(view, window, i) only (value clauses and cache invariants of feat / cmp, positional clauses of map).",
-                note="'bit-for-bit' is equality under A-REAL", not_covered=["functions not under contract"], assumptions=["A-REAL", "A-EXTRACT", "A-TOOLS"]),
-    "C07": dict(text=_V + ": the drivers are proved against the abstract Vec1View contract (any backend satisfying it gives the same trace) and every _to function delivers the same values whether returned or written to the caller's buffer (delivered_each).  Kani (BOUNDED, 3-4 elements) checks that Vec, fixed array and VecDeque at 4 head offsets satisfy the accessor part of that contract.",
-                note="the backend part is bounded; ndarray, Polars and Arc backends are not compiled / not covered",
-                not_covered=["ndarray backend", "Polars backend", "Arc wrappers", "option view", "backend-specific fast-path overrides"],
+    "C06": dict(text=_V + ": every output is a stated function of wnd(view, window, i) only (value clauses and cache invariants of feat / cmp, positional clauses of map).  Kani (BOUNDED, length 4): rolling extrema / arg-extrema, rank and min-max normalisation against a from-scratch evaluation of each window alone.",
+                note="'bit-for-bit' is equality under A-REAL", not_covered=["functions not under contract or bounded harness"], assumptions=["A-REAL", "A-EXTRACT", "A-TOOLS"]),
+    "C07": dict(text=_V + ": the drivers are proved against the abstract Vec1View contract (any backend satisfying it gives the same trace) and every _to function delivers the same values whether returned or written to the caller's buffer (delivered_each).  Kani (BOUNDED, 3-5 elements) checks that Vec, fixed array, VecDeque at 4 head offsets, ndarray owned arrays and ndarray views with step 1, 2, -1, -2 satisfy the accessor part of that contract (len, get, uget, titer both ways, slice, uslice, try_as_slice), that the overridden ndarray drivers (incl. the slice driver rolling_custom) see the logical sequence of a reversed / strided view, and that an Arc-wrapped Vec answers like the Vec.",
+                note="the backend part is bounded; the Polars backend is not compiled / not covered",
+                not_covered=["Polars backend", "Arc wrappers", "option view", "fast-path overrides other than Vec / ndarray"],
                 assumptions=["A-REAL", "A-ITER", "A-EXTRACT", "A-TOOLS"]),
-    "C08": dict(text=_V + ": all null-aware contracts are stated over vals() (NaN and None are the same null); lemmas: the two encodings of a series have the same vals(), cnt and power sums are invariant under inserting / deleting nulls.  Kani (BOUNDED, length <= 3-4) compares the two encodings and an inserted null on the real code.",
+    "C08": dict(text=_V + ": all null-aware contracts are stated over vals() (NaN and None are the same null); lemmas: the two encodings of a series have the same vals(), cnt and power sums are invariant under inserting / deleting nulls.  Kani (BOUNDED, length <= 3-4) compares the two encodings and an inserted null on the real code; rolling extrema / rank / normalisation against the non-null elements of each window (length 4); the cmp unit (rolling extrema contracts over vals()).",
                 note="canonical nulls only (Some(NaN) excluded, DESIGN 5.4)", not_covered=["pairwise deletion beyond ts_vcov / ts_vcorr", "percentile ranks", "f32 / Option<i32> output encodings"],
                 assumptions=["A-REAL", "A-ITER", "A-MONO", "A-EXTRACT", "A-TOOLS"]),
-    "C09": dict(text=_V + ": the announced-length precondition holds at every TrustIter::new / to_trust site of the map, rank, gen units; exact size_hint of Linspace.  Kani: linspace count on the real code.",
+    "C09": dict(text=_V + ": the announced-length precondition holds at every TrustIter::new / to_trust site of the map, rank, gen units; TrustIter itself (next, next_back, size_hint: the announced length is the stored one and follows consumption from either end); exact size_hint of Linspace.  Kani: linspace count on the real code.",
                 note="std adaptors by assumed contract (A-ITER)", not_covered=["TrustIter sites in functions not under contract"], assumptions=["A-ITER", "A-EXTRACT", "A-TOOLS"]),
-    "C10": dict(text=_V + ": index preconditions at every uget / uset / uslice site and the write-exactly-once ghost map of the drivers, cmp, rank, quant units.",
+    "C10": dict(text=_V + ": index preconditions at every uget / uset / uslice site and the write-exactly-once ghost map of the drivers, cmp, rank, quant units; every slot written before assume_init in the Vec and ndarray fast paths.",
                 note="", not_covered=["unsafe sites in functions not under contract"], assumptions=["A-SORT", "A-ITER", "A-EXTRACT", "A-TOOLS"]),
     "C11": dict(text=_V + ": count_valid, count_none, vsum, vmean, vmean_var, vvar, vstd, vskew, vmax, vmin (via max_with / min_with), vargmax, vargmin, vany, vall, vcov, vcorr_pearson (pairwise-complete) equal their textbook forms over the non-null elements, incl. the null / minimum-count cases.  Kani (BOUNDED, length <= 4) as a backstop.",
                 note="A-REAL for sums and moments; fold helpers vfold / vfold_n / vapply_n by assumed contract",
-                not_covered=["vkurt (needs the moment inequality m4 >= m2^2 to rule out the `res != 0` guard)", "masked sum / mean", "vfirst / vlast (bounded only)", "permutation invariance as a separate lemma"],
+                not_covered=["vkurt (needs the moment inequality m4 >= m2^2 to rule out the `res != 0` guard)", "masked sum / mean, vfirst / vlast (bounded only)", "permutation invariance as a separate lemma"],
                 assumptions=["A-REAL", "A-ITER", "A-MONO", "A-EXTRACT", "A-TOOLS"]),
     "C12": dict(text=_V + ": vpartition / varg_partition (arity, padding, index ranges) and vquantile (errors, nulls, index ranges, order statistics for lower / higher / midpoint).",
                 note="sorting by assumed contract (A-SORT); vquantile needs the seed-retry policy (unstable query)",
-                not_covered=["linear interpolation value of vquantile", "vrank", "vpercentile_of"], assumptions=["A-SORT", "A-REAL", "A-ITER", "A-EXTRACT", "A-TOOLS"]),
+                not_covered=["linear interpolation value of vquantile", "vrank (Kani, length <= 3) and vpercentile_of (Kani, length <= 4): bounded only"], assumptions=["A-SORT", "A-REAL", "A-ITER", "A-EXTRACT", "A-TOOLS"]),
     "C13": dict(text=_V + ": positional postconditions of shift, vshift, vdiff, vpct_change (every lag incl. 0, |lag| >= len, fill values), ffill / bfill (nearest earlier / later non-null element, else the default, else null; via ffill_mask / bfill_mask with the null test as mask), fill / fill_mask (touches only masked elements), vclip (each element alone, nulls stay null; idempotence and containment for lower <= upper as a lemma).",
                 note="the stateful map of ffill / bfill by the eager model (A-ITER, mapmodel.rs)", not_covered=["vabs / abs (the scalar clause is in C15)", "ffill_mask / bfill_mask with an arbitrary mask"], assumptions=["A-REAL", "A-ITER", "A-MONO", "A-EXTRACT", "A-TOOLS"]),
     "C14": dict(text=_V + ": vcut (label-count errors, unique enclosing interval, open bounds label every value, nulls get the null label) in three instantiations, from the extracted scan loop.  Kani (BOUNDED, sorted series of length <= 5) decides vsorted_unique_idx First / Last and vsorted_unique.",
                 note="run de-duplication is bounded only", not_covered=["unbounded argument for vsorted_unique*"], assumptions=["A-REAL", "A-ITER", "A-MONO", "A-EXTRACT", "A-TOOLS"]),
     "C16": dict(text=_V + ": into_unit (floor law, NaT), NaT predicates, calendar conversions per unit, NaT absorption of the operators; Kani: NaT and unit-identity laws over the full i64 domain; BOUNDED: ms / us calendar conversion read back with chrono's accessors on +-4096 units around the epoch.",
                 note="chrono by assumed contract (A-CHRONO)", not_covered=[], assumptions=["A-CHRONO", "A-EXTRACT", "A-TOOLS"]),
-    "C17": dict(text=_V + ": Time +- duration, DateTime +- TimeDelta, date-time difference, duration_trunc (month-free and month blocks), TimeDelta neg / add / sub / mul, inverse-law lemmas; Kani: duration group / scaling laws, component round trip.",
+    "C17": dict(text=_V + ": Time +- duration, DateTime +- TimeDelta, date-time difference, duration_trunc (month-free and month blocks), TimeDelta neg / add / sub / mul, inverse-law lemmas; Kani: duration group / scaling laws, component round trip, NaT operands of every operator (symbolic, and BOUNDED: a NaT date-time with a list of concrete month-free durations at second / microsecond / nanosecond resolution).",
                 note="A-CHRONO: month shift and calendar fields are chrono's (abstract); the inverse law is stated for durations that are whole units of the date-time's resolution",
                 not_covered=["Time::from_* / Timelike getters beyond the Kani round trip", "Div<TimeDelta>"], assumptions=["A-CHRONO", "A-EXTRACT", "A-TOOLS"]),
-    "C18": dict(text=_V + ": TimeDelta::parse and its helpers never panic and return a value or an error for every string (abstract string model, unbounded length).",
-                note="the byte / UTF-8 layer of str is a model (R19)", not_covered=["chrono-delegating parsers", "strftime round trip", "term sum of parse beyond: each term added exactly (add_term / add_months) and fixed part == seconds + sub-second terms"], assumptions=["string model", "A-EXTRACT", "A-TOOLS"]),
-    "C19": dict(text=_V + ": range / linspace counts and elements, Linspace next / next_back / size_hint; Kani (BOUNDED band of start / end / step) decides both step directions on the real code.",
-                note="descending range is decided by Kani only (Verus leaves signed division by a negative divisor unspecified)", not_covered=["float range count beyond A-REAL"],
+    "C18": dict(text=_V + ": TimeDelta::parse and its helpers never panic and return a value or an error for every string (abstract string model, unbounded length); DateTime::strftime (NaT, caller's format, default format = entry 1 of the parser's table TIME_RULE_VEC, on the real string literals) and DateTime::parse (total; explicit format = chrono's answer, date-time before date; no format = first accepted entry of the table) with chrono's format / parse_from_str as oracles; round-trip lemma under two stated chrono hypotheses.",
+                note="the byte / UTF-8 layer of str is a model (R19); chrono's formatting and parsing are oracles (A-CHRONO): the round trip is proved relative to 'chrono parses what it printed with the default format and rejects that text under the earlier table entry'", not_covered=["Time::parse / Time formatting", "chrono's own format / parse semantics", "term sum of parse beyond: each term added exactly (add_term / add_months) and fixed part == seconds + sub-second terms"], assumptions=["string model", "A-EXTRACT", "A-TOOLS"]),
+    "C19": dict(text=_V + ": range / linspace counts and elements, Linspace next / next_back / size_hint; Kani (BOUNDED band of start / end / step) decides both step directions on the real code; Kani (BOUNDED, iterators of length <= 3): fallible collection returns the first error and pulls nothing after it (trusted and plain, generic error and TResult, Vec and VecDeque), infallible collectors (plain, trusted, with length, optional -> null-encoded) and full preserve order and content, writing into an uninitialised buffer fills every slot / broadcasts a single item / reports a length mismatch.",
+                note="descending range is decided by Kani only (Verus leaves signed division by a negative divisor unspecified); the collectors use raw pointer writes and are decided by Kani on the real code only", not_covered=["float range count beyond A-REAL", "ndarray / Polars collectors", "apply_mut_with and the view_mut helpers"],
                 assumptions=["A-REAL", "A-EXTRACT", "A-TOOLS"]),
-    "C20": dict(text=_V + ": half_life terminates, never overflows, returns a lag in range and the first lag whose correlation is not above one half for a monotone correlation oracle.",
-                note="correlation values are an oracle (external_body)", not_covered=["winsorize", "Spearman correlation"], assumptions=["A-REAL", "A-EXTRACT", "A-TOOLS"]),
+    "C20": dict(text=_V + ": half_life terminates, never overflows, returns a lag in range and the first lag whose correlation is not above one half for a monotone correlation oracle; winsorize is the clip of the series to ONE interval whose bounds are the documented statistics of the data (q and 1-q linear quantiles; median -/+ k MAD, always when the median exists; mean -/+ k sigma when the variance exceeds EPS), only the quantile method can fail; Spearman = Pearson of the average ranks (unit wins).",
+                note="correlation, quantile, median, mean / variance and rank VALUES are oracles here (decided under C11 / C12); the clip contract is the one proved for vclip in unit map (restated); instantiation f64", not_covered=["order preservation as a separate lemma (follows from clipping to one interval with lo <= hi)", "invariance of Spearman under increasing maps (a property of ranks: C12)"], assumptions=["A-REAL", "A-EXTRACT", "A-TOOLS"]),
 }
 for _k, _d in DETAILS.items():
     _e = PLAN[_k]
